@@ -90,6 +90,8 @@ def rand_config(rng, max_size=40, kind_hint=None):
         if kind_hint is not None and kind_hint % 6 == 4:
             mods = ()  # profile 4: no charges -> single-block tensors (fast paths), with a pipe partner
         r1 = rng.choice([2, 3, 3])
+        if kind_hint is not None and kind_hint % 6 == 3:
+            r1 = 3  # profile 3: the transposed partner differs by a cyclic (not self-inverse) permutation of three legs
         single = kind_hint is not None and kind_hint % 6 == 4
         disjoint = kind_hint is not None and kind_hint % 6 == 1
         legs1 = [rand_leg(rng, mods, max_blocks=1 if single else 3, max_size=3 if single else 2, min_blocks=2 if disjoint else 1) for _ in range(r1)]
@@ -145,6 +147,8 @@ def rand_config(rng, max_size=40, kind_hint=None):
             perm = list(range(1, r1 + 1))
             while perm == list(range(1, r1 + 1)):
                 perm = [x + 1 for x in rng.sample(range(r1), r1)]
+            if kind_hint is not None and r1 == 3:
+                perm = rng.choice([[2, 3, 1], [3, 1, 2]])
             t2['transpose_perm'] = perm
         import itertools
 
@@ -498,6 +502,11 @@ def apply_step(pool, l, chinfo):
     if op == 'combine_legs':
         g = ax0(l['group'])
         return 'store', a.combine_legs(g, qconj=l['qconj'])
+    if op == 'combine_legs_at':
+        g = ax0(l['group'])
+        new_rank = a.rank - len(g) + 1
+        na = l['na'] - 1
+        return 'store', a.combine_legs([g], new_axes=[na - new_rank if l['neg'] else na], qconj=[l['qconj']])
     if op == 'split_legs':
         return 'store', a.split_legs([l['x'] - 1])
     if op == 'take_slice':
